@@ -206,7 +206,7 @@ func init() {
 	core.Register(&core.Prop{
 		ID:    "C07",
 		Level: "exploration",
-		Rule:  "every delimiter configuration (segment in {~, LF, ||, é} x element in {*, <>} x component in {none, :} x repetition in {none, ^} x release in {none, ?, \\, é} x ignore_crlf) x every pair (triple in thorough) of values of up to 2 (3) symbols over {x, é, every rune of every delimiter in use, the release character, empty, CR} placed in every structural arrangement (two elements, two components, two repetitions, value + trailing empty elements), encoded by a reference escaper (release char makes the next rune literal), terminated with/without CR LF, read with scanner buffers 4, 8 and 128 and as padded segments of 120-135 and 250-260 bytes; segments of up to 40 elements / 12 components / 12 repetitions; element declarations with index/component_index, default (also defaults containing delimiter and release characters), empty_if_missing, neither (fatal), and the same (index, component) declared twice; the element values of the node tree must equal the logical values; distinct by (configuration, input, declarations); invalid UTF-8 / U+FFFD values (plain and escaped), wide segments, a released CR right before an LF delimiter",
+		Rule:  "every delimiter configuration (segment in {~, LF, ||, é} x element in {*, <>} x component in {none, :} x repetition in {none, ^} x release in {none, ?, \\, é} x ignore_crlf) x every pair (triple in thorough) of values of up to 2 (3) symbols over {x, é, every rune of every delimiter in use, the release character, empty, CR} placed in every structural arrangement (two elements, two components, two repetitions, value + trailing empty elements), encoded by a reference escaper (release char makes the next rune literal), terminated with/without CR LF, read with scanner buffers 4, 8 and 128 and as padded segments of 120-135 and 250-260 bytes; segments of up to 40 elements / 12 components / 12 repetitions; element declarations with index/component_index, default (also defaults containing delimiter and release characters), empty_if_missing, neither (fatal), and the same (index, component) declared twice; the element values of the node tree must equal the logical values; distinct by (configuration, input, declarations); invalid UTF-8 / U+FFFD values (plain and escaped), wide segments, a released CR right before an LF delimiter; delimiters of two equal runes (**, ::, ^^, ~~, éé); under ignore_crlf runs of line breaks 110 scanner buffers long inside a value / between segments / before the first / after the last",
 		Assumptions: []string{
 			"the release character is a single rune (the property speaks of a release character); multi-rune release strings are outside the alphabet",
 			"with LF as segment delimiter one CR before the LF belongs to the terminator; with ignore_crlf every CR/LF byte is dropped before tokenising - the reference codec applies these two rules to the expected values",
